@@ -1183,26 +1183,56 @@ func ruleSHIFTWIDTH(c *Ctx) []Obligation {
 					return true
 				}
 				bt, ok := info.TypeOf(be).Underlying().(*types.Basic)
-				if !ok || bt.Kind() != types.Int64 && bt.Kind() != types.Int {
+				if !ok {
 					return true
 				}
-				cnt, ok := unparen(be.Y).(*ast.Ident)
-				if !ok {
-					if call, isConv := unparen(be.Y).(*ast.CallExpr); isConv && len(call.Args) == 1 {
-						if tv, ok := info.Types[call.Fun]; ok && tv.IsType() {
-							cnt, ok = unparen(call.Args[0]).(*ast.Ident)
-							if !ok {
-								return true
-							}
-						} else {
-							return true
-						}
-					} else {
-						return true
+				signed := bt.Kind() == types.Int64 || bt.Kind() == types.Int
+				if !signed && bt.Kind() != types.Uint64 && bt.Kind() != types.Uint {
+					return true
+				}
+				// the count: a variable (possibly converted), or a bit-size field read in place
+				var cnt *ast.Ident
+				switch y := unparen(be.Y).(type) {
+				case *ast.Ident:
+					cnt = y
+				case *ast.CallExpr:
+					if tv, ok := info.Types[y.Fun]; ok && tv.IsType() && len(y.Args) == 1 {
+						cnt, _ = unparen(y.Args[0]).(*ast.Ident)
 					}
+				}
+				if cnt == nil && !strings.Contains(exprString(be.Y), ".BitSize") {
+					return true
 				}
 				shifts++
 				lbits := int64(constant.BitLen(lv)) // 1 for the constant 1
+				// the count is the bit size of an integer type (IntType.BitSize, unbounded for all practical
+				// purposes): without a bound the shift leaves the machine word for widths of 64 and more
+				isBitSize := func(e ast.Expr) bool {
+					if se, ok := unparen(e).(*ast.SelectorExpr); ok && se.Sel.Name == "BitSize" {
+						return true
+					}
+					if call, ok := unparen(e).(*ast.CallExpr); ok && len(call.Args) == 1 {
+						if tv, ok := info.Types[call.Fun]; ok && tv.IsType() {
+							if se, ok := unparen(call.Args[0]).(*ast.SelectorExpr); ok && se.Sel.Name == "BitSize" {
+								return true
+							}
+						}
+					}
+					return false
+				}
+				fromBitSize := isBitSize(be.Y)
+				if !fromBitSize && cnt != nil {
+					for _, d := range collectDefs(info, fd.Body)[info.ObjectOf(cnt)] {
+						if isBitSize(d) {
+							fromBitSize = true
+						}
+					}
+				}
+				bounded := false
+				limit := int64(63)
+				if !signed {
+					limit = 64
+				}
 				// the guard: an enclosing if whose condition bounds the count from above
 				child := ast.Node(be)
 				for q := pm[be]; q != nil; child, q = q, pm[q] {
@@ -1224,8 +1254,11 @@ func ruleSHIFTWIDTH(c *Ctx) []Obligation {
 							continue
 						}
 						gid, ok := unparen(g.X).(*ast.Ident)
-						if !ok || info.ObjectOf(gid) != info.ObjectOf(cnt) {
-							continue
+						if !ok || cnt == nil || info.ObjectOf(gid) != info.ObjectOf(cnt) {
+							// a bound on the bit-size field itself: `typ.BitSize < 64`
+							if cnt != nil || strings.ReplaceAll(exprString(g.X), " ", "") != strings.ReplaceAll(strings.TrimSuffix(strings.TrimPrefix(exprString(unparen(be.Y)), "uint("), ")"), " ", "") {
+								continue
+							}
 						}
 						kv := info.Types[g.Y].Value
 						if kv == nil || kv.Kind() != constant.Int {
@@ -1239,13 +1272,86 @@ func ruleSHIFTWIDTH(c *Ctx) []Obligation {
 						n++
 						o := Obligation{Key: fmt.Sprintf("%s: shift %s stays below the sign bit #%d", funcKey(fn), exprString(be), n), Pos: c.pos(be.Pos()), Verdict: OK,
 							Detail: fmt.Sprintf("count ≤ %d under `%s`", maxCount, exprString(g))}
-						if maxCount+lbits > 63 {
+						bounded = true
+						if maxCount+lbits > limit {
 							o.Verdict = VIOL
 							o.Detail = fmt.Sprintf("under `%s` the count reaches %d, and %s shifted by %d does not fit a signed 64-bit integer (it is negative or wraps): the value computed for that width is wrong", exprString(g), maxCount, exprString(be.X), maxCount)
 						}
 						obs = append(obs, o)
 						return true
 					}
+				}
+				// a guard clause ahead of the shift: `if n > K { return … }` bounds the count as well
+				if !bounded {
+					cs := strings.ReplaceAll(exprString(unparen(be.Y)), " ", "")
+					if call, ok := unparen(be.Y).(*ast.CallExpr); ok && len(call.Args) == 1 {
+						if tv, ok := info.Types[call.Fun]; ok && tv.IsType() {
+							cs = strings.ReplaceAll(exprString(unparen(call.Args[0])), " ", "")
+						}
+					}
+					var holder ast.Node = be
+					for q := pm[be]; q != nil && !bounded; holder, q = q, pm[q] {
+						blk, ok := q.(*ast.BlockStmt)
+						if !ok {
+							continue
+						}
+						for _, st := range blk.List {
+							if st == holder {
+								break
+							}
+							is, ok := st.(*ast.IfStmt)
+							if !ok || len(is.Body.List) == 0 {
+								continue
+							}
+							switch is.Body.List[len(is.Body.List)-1].(type) {
+							case *ast.ReturnStmt, *ast.BranchStmt:
+							default:
+								if !endsInPanic(is.Body.List) {
+									continue
+								}
+							}
+							g, ok := unparen(is.Cond).(*ast.BinaryExpr)
+							if !ok || g.Op != token.GTR && g.Op != token.GEQ {
+								continue
+							}
+							if strings.ReplaceAll(exprString(g.X), " ", "") != cs {
+								continue
+							}
+							kv := info.Types[g.Y].Value
+							if kv == nil || kv.Kind() != constant.Int {
+								continue
+							}
+							k, _ := constant.Int64Val(kv)
+							maxCount := k
+							if g.Op == token.GEQ {
+								maxCount = k - 1
+							}
+							// a mask `1<<n - 1` in an unsigned word is right at n = 64 too (the shift wraps to 0)
+							lim := limit
+							if par, ok := pm[be].(*ast.BinaryExpr); ok && par.Op == token.SUB && !signed {
+								lim = 65
+							} else if pe, ok := pm[be].(*ast.ParenExpr); ok {
+								if par, ok := pm[pe].(*ast.BinaryExpr); ok && par.Op == token.SUB && !signed {
+									lim = 65
+								}
+							}
+							bounded = true
+							n++
+							o := Obligation{Key: fmt.Sprintf("%s: shift %s stays inside the word #%d", funcKey(fn), exprString(be), n), Pos: c.pos(be.Pos()), Verdict: OK,
+								Detail: fmt.Sprintf("count ≤ %d after the guard clause `%s`", maxCount, exprString(g))}
+							if maxCount+lbits > lim {
+								o.Verdict = VIOL
+								o.Detail = fmt.Sprintf("after the guard clause `%s` the count still reaches %d, and %s shifted by %d leaves the 64-bit word: the value computed for that width is wrong", exprString(g), maxCount, exprString(be.X), maxCount)
+							}
+							obs = append(obs, o)
+							break
+						}
+					}
+				}
+				if fromBitSize && !bounded {
+					n++
+					obs = append(obs, Obligation{Key: fmt.Sprintf("%s: shift %s by a bit size is bounded #%d", funcKey(fn), exprString(be), n), Pos: c.pos(be.Pos()), Verdict: VIOL,
+						Detail: fmt.Sprintf("the count is the bit size of an integer type and no enclosing condition bounds it: for widths of %d and more the shift leaves the 64-bit word (the result is 0 or negative), so the value computed for i64 and wider types is wrong", limit)})
 				}
 				return true
 			})
